@@ -200,9 +200,15 @@ def mdImage (dsImg : String) : MdEntry → Option String
 def foundDocker (dsImg : String) (mds : List MdEntry) : List String :=
   mds.reverse.filterMap (mdImage dsImg)
 
-/-- `docker_image = self._docker_image; md = exe.extended_md("docker"); if len(md) > 0: md[-1].image` -/
-def chooseImage (dsImg : String) (mds : List MdEntry) : String :=
-  (foundDocker dsImg mds).getLast?.getD dsImg
+/-- `docker_image = self._docker_image; md = exe.extended_md("docker"); if len(md) > 0: md[-1].image`,
+with the template `DockerImageSpecification` the executor holds under the key `"docker"` made
+explicit (`tpl`): an entry without `image` key inherits the template's image. -/
+def chooseImageT (dsImg tpl : String) (mds : List MdEntry) : String :=
+  (foundDocker tpl mds).getLast?.getD dsImg
+
+/-- … in one execution the template is the dataset's own `image:tag` (`add_extended_md` has just
+put it there). -/
+def chooseImage (dsImg : String) (mds : List MdEntry) : String := chooseImageT dsImg dsImg mds
 
 /-- The loop over `self.files`: one line per file until a file from another directory is met
 (the line of the offending file is written before the check). Returns the lines and the
@@ -224,22 +230,26 @@ def volumesFor (row : BackendRow) (dir : PPath) : List Volume :=
   [⟨.runDir, "/scripts", some "ro"⟩, ⟨.runDir, "/results", some "rw"⟩, ⟨.path dir, "/data/", some "ro"⟩]
     ++ row.cacheVolumes.map cacheVolume
 
-def mkCall (ds : Dataset) (q : QueryFacts) (dir : PPath) : DockerCall :=
-  { image := chooseImage ds.image q.mds,
+def mkCallT (ds : Dataset) (tpl : String) (q : QueryFacts) (dir : PPath) : DockerCall :=
+  { image := chooseImageT ds.image tpl q.mds,
     command := ["/scripts/" ++ ds.row.runner],
     volumes := volumesFor ds.row dir,
     remove := true, stream := true }
 
+def mkCall (ds : Dataset) (q : QueryFacts) (dir : PPath) : DockerCall := mkCallT ds ds.image q dir
+
 /-- Everything up to (not including) `docker.run`: the events and either the call to make or the
-error. -/
-def prepare (ds : Dataset) (q : QueryFacts) : List Ev × Except Err DockerCall :=
+error. `tpl` is the image of the executor's `"docker"` template at that moment. -/
+def prepareT (ds : Dataset) (tpl : String) (q : QueryFacts) : List Ev × Except Err DockerCall :=
   if !q.translates then ([], .error .translate)
   else match ds.files with
     | [] => ([.package ds.row.fileNames, .filelist []], .error .noFiles)   -- unreachable: `construct_files_ne`
     | u :: us =>
       let (ls, ok) := walkFiles u.parent (u :: us)
-      if ok then ([.package ds.row.fileNames, .filelist ls], .ok (mkCall ds q u.parent))
+      if ok then ([.package ds.row.fileNames, .filelist ls], .ok (mkCallT ds tpl q u.parent))
       else ([.package ds.row.fileNames, .filelist ls], .error .differentDirs)
+
+def prepare (ds : Dataset) (q : QueryFacts) : List Ev × Except Err DockerCall := prepareT ds ds.image q
 
 /-- DESIGN's `plan`: the docker call a dataset/query/file-system triple leads to, or the error. -/
 def plan (a : DatasetArgs) (q : QueryFacts) (fs : FsFacts) : Except Err DockerCall :=
@@ -282,8 +292,8 @@ def finish (ds : Dataset) (fs : FsFacts) (o : Outcome) : Except Err PPath :=
 /-! ## the whole execution -/
 
 /-- The body of the `with tempfile.TemporaryDirectory()` block. -/
-def body (ds : Dataset) (q : QueryFacts) (fs : FsFacts) (o : Outcome) : List Ev × Except Err PPath :=
-  match prepare ds q with
+def bodyT (ds : Dataset) (tpl : String) (q : QueryFacts) (fs : FsFacts) (o : Outcome) : List Ev × Except Err PPath :=
+  match prepareT ds tpl q with
   | (evs, .error e) => (evs, .error e)
   | (evs, .ok call) =>
     match runContainer o with
@@ -293,11 +303,47 @@ def body (ds : Dataset) (q : QueryFacts) (fs : FsFacts) (o : Outcome) : List Ev 
       | .error e => (evs ++ [.run call, .pulled n], .error e)
       | .ok p => (evs ++ [.run call, .pulled n, .copy p], .ok p)
 
+def body (ds : Dataset) (q : QueryFacts) (fs : FsFacts) (o : Outcome) : List Ev × Except Err PPath :=
+  bodyT ds ds.image q fs o
+
 /-- Constructor, then `execute_result_async`. A constructor error leaves no trace at all; anything
 after it happens between `tmpCreate` and `tmpRemove`. -/
 def execute (a : DatasetArgs) (q : QueryFacts) (fs : FsFacts) (o : Outcome) : List Ev × Except Err PPath :=
   match construct a fs with
   | .error e => ([], .error e)
   | .ok ds => (.tmpCreate :: (body ds q fs o).1 ++ [.tmpRemove], (body ds q fs o).2)
+
+/-! ## several executions on ONE dataset object
+
+What outlives one `execute_result_async`: (1) the dataset object itself — immutable after
+`__init__`; (2) the executor — `get_executor_obj()` builds a NEW one for every execution, so its
+`_found_extended_md` (never cleared by `reset()`) starts empty each time; (3) the dict object that
+is `executor.__init__`'s default `extended_md={}` — shared by every executor ever built;
+`add_extended_md` stores the `"docker"` template in it and `reset()` only re-binds the attribute,
+so the template of the previous execution (possibly of another dataset) is still there when the
+next executor is built.  `Shared` is (3); each step overwrites it before using it. -/
+
+structure Shared where
+  template : Option String
+deriving Repr, DecidableEq
+
+/-- One `execute_result_async` on an already constructed dataset, in the shared state `s`. -/
+def stepIn (s : Shared) (ds : Dataset) (q : QueryFacts) (fs : FsFacts) (o : Outcome) :
+    Shared × (List Ev × Except Err PPath) :=
+  -- `exe.add_extended_md({"docker": DockerImageSpecification(self._docker_image)})`
+  let s' : Shared := { s with template := some ds.image }
+  let tpl := s'.template.getD ds.image
+  (s', (.tmpCreate :: (bodyT ds tpl q fs o).1 ++ [.tmpRemove], (bodyT ds tpl q fs o).2))
+
+def runSeq (s : Shared) (ds : Dataset) (fs : FsFacts) : List (QueryFacts × Outcome) → List (List Ev × Except Err PPath)
+  | [] => []
+  | (q, o) :: rest => (stepIn s ds q fs o).2 :: runSeq (stepIn s ds q fs o).1 ds fs rest
+
+/-- The constructor once, then the executions one after another, starting from any shared state. -/
+def executeSeq (s : Shared) (a : DatasetArgs) (fs : FsFacts) (steps : List (QueryFacts × Outcome)) :
+    Except Err (List (List Ev × Except Err PPath)) :=
+  match construct a fs with
+  | .error e => .error e
+  | .ok ds => .ok (runSeq s ds fs steps)
 
 end FaxVerif.C17
